@@ -274,3 +274,98 @@ def _rev_below(t):
             n += 1
         t = strip(t[2][0])
     return n % 2 == 1
+
+
+def check_summand(facts, rep):
+    """H5 (C07, "composition of coordinate maps"): a Summand turns chains into homology coordinates and back with one
+    pair of maps: vectorize = trans.forward(coordinates in raw_gens), devectorize = raw_gens-combination of trans.backward(v),
+    gen(i) = devectorize(e_i); vectorize_euc keeps the free coordinates (i < rank) and reduces the torsion coordinate i
+    modulo its own order tors[i - rank]; merge takes rank / torsion from the finer summand and composes the transforms."""
+    S = 'yui_homology::conc::summand::Summand::<X, R>::'
+
+    def dk(t):
+        return re.sub(r'\^_ref__', '^', re.sub(r'#\d+\.\d+', '', show(t, -1000))).replace('&', '').replace('*', '')
+
+    def rets(name):
+        b = facts.bodies.get(S + name)
+        if b is None:
+            return None
+        rep.saw(b)
+        return sorted({(dk(p.ret), tuple((dk(e.term), e.value != 0) for e in p.branches() if 'Overflow' not in dk(e.term) and not dk(e.term).startswith('Eq(dim('))) for p in SymEx(b).run() if p.end == 'return'})
+    want = {
+        'gen': [('devectorize(arg1, unit(dim(arg1), arg2))', ())],
+        'vectorize': [('forward(arg1.trans, from_entries(len(arg1.raw_gens), map(iter(arg2), closure<{closure#0}>)))', ())],
+        'vectorize::{closure#0}': [('(index_of(arg1.^self.raw_gens, arg2.0).Some.0, clone(arg2.1))', (('discr(index_of(arg1.^self.raw_gens, arg2.0))', True),))],
+        'vectorize_euc': [('from_sorted_entries(dim(vectorize(arg1, arg2)), map(iter(vectorize(arg1, arg2)), closure<{closure#0}>))', ())],
+        'devectorize': [('from_iter(map(iter(backward(arg1.trans, arg2)), closure<{closure#0}>))', ())],
+        'devectorize::{closure#0}': [('(clone(index(arg1.^self.raw_gens, arg2.0)), clone(arg2.1))', ())],
+    }
+    for name, w in want.items():
+        got = rets(name)
+        inst = 'Summand::%s|as tabulated' % name
+        if got is None:
+            rep.indet('E19.H5: Summand::%s not found' % name)
+        elif got == w:
+            rep.ok('E19.H5-summand-maps', inst, w[0][0][:100])
+        else:
+            g = got[0][0] if got else ''
+            swapped = ('backward(' in g and name == 'vectorize') or ('forward(' in g and name == 'devectorize')
+            if swapped:
+                rep.violation('E19.H5-summand-maps', inst, 'Summand::%s goes through %s: chains -> coordinates must use trans.forward, coordinates -> chains trans.backward' % (name, g[:120]), where='yui-homology/src/conc/summand.rs')
+            else:
+                rep.indet('E19.H5: Summand::%s outside the recognised fragment: %s' % (name, [x[0][:160] for x in got]))
+    # vectorize_euc closure by value
+    from dtree import DTree, Stuck
+    dt = DTree(facts)
+    cl = S + 'vectorize_euc::{closure#0}'
+    inst = 'Summand::vectorize_euc|free coordinates kept, torsion coordinate i reduced mod tors[i - rank]'
+    if cl not in facts.bodies:
+        rep.indet('E19.H5: vectorize_euc closure not found')
+    else:
+        bad = None
+        try:
+            for r in (0, 1, 2, 3):
+                def atom(t, ev, r=r):
+                    s = dk(t)
+                    if re.match(r'arg1\.\^r$', s):
+                        return (r,)
+                    if t[0] == 'call' and t[1].split('::')[-1] == 'rem' and len(t[2]) == 2:
+                        return (('rem', ev(t[2][0]), ev(t[2][1])),)
+                    if t[0] == 'call' and t[1].split('::')[-1] == 'clone' and len(t[2]) == 1:
+                        return (ev(t[2][0]),)
+                    if t[0] == 'index' and dk(t[1]).startswith('tors('):
+                        return (('tors', ev(t[2])),)
+                    if t[0] == 'call' and t[1].split('::')[-1] == 'index' and len(t[2]) == 2 and dk(t[2][0]).startswith('tors('):
+                        return (('tors', ev(t[2][1])),)
+                    return None
+                for i in range(0, 6):
+                    v, _ = dt.decide(cl, {2: (i, 'a')}, atom)
+                    w = (i, 'a') if i < r else (i, ('rem', 'a', ('tors', i - r)))
+                    if tuple(v) != w:
+                        bad = bad or 'rank %d, coordinate %d: got %s, expected %s' % (r, i, v, w)
+        except (Stuck, KeyError, TypeError, ValueError) as e:
+            rep.indet('E19.H5: vectorize_euc closure outside the recognised fragment: %s' % e)
+            bad = 'indet'
+        if bad is None:
+            rep.ok('E19.H5-summand-maps', inst, 'checked for rank 0..3, coordinates 0..5')
+        elif bad != 'indet':
+            rep.violation('E19.H5-summand-maps', inst, 'Summand::vectorize_euc: ' + bad + ' - a boundary no longer maps to the zero vector modulo the torsion orders', where='yui-homology/src/conc/summand.rs')
+    # merge
+    mb = facts.bodies.get(S + 'merge')
+    if mb is None:
+        rep.indet('E19.H5: Summand::merge not found')
+        return
+    rep.saw(mb)
+    shapes = set()
+    for p in SymEx(mb).run():
+        if p.end != 'return':
+            continue
+        ws = tuple(sorted((dk(('mref', e.lv)).replace('mut ', ''), dk(e.term)) for e in p.events if e.kind == 'write' and e.lv))
+        cs = tuple((e.name.split('::')[-1], tuple(dk(a).replace('mut ', '') for a in e.args)) for e in p.calls() if e.name.split('::')[-1] in ('merge', 'reduce', 'merged'))
+        shapes.add((ws, cs))
+    w = {((('arg1.rank', 'arg2.rank'), ('arg1.tors', 'clone(arg2.tors)')), (('merge', ('arg1.trans', 'arg2.trans')), ('reduce', ('arg1.trans',))))}
+    inst = 'Summand::merge|rank, tors from the finer summand; transforms composed self then other'
+    if shapes == w:
+        rep.ok('E19.H5-summand-maps', inst, 'trans.merge(other.trans); reduce()')
+    else:
+        rep.indet('E19.H5: Summand::merge outside the recognised fragment: %s' % sorted(shapes)[:1])
